@@ -256,7 +256,16 @@ func init() {
 			// the sets are kept sorted with serial-number comparators
 			for _, x := range [][2]string{{"sortChunksByTSN$1", "sna32LT"}, {"sortChunksBySSN$1", "sna16LT"}, {"sortChunksByFSN$1", "sna32LT"}, {"insertChunkSetByMID$1", "sna32LT"}} {
 				cl := c.Fn(x[0])
-				c.Check(len(callsIn(cl, c.Fn(x[1]))) == 1, "sort-cmp:"+x[0], c.P.Pos(cl.Pos()), "comparator uses "+x[1], "comparator no longer uses "+x[1])
+				// exactly one serial-number comparison of the right width (which helper and polarity is a matter of style)
+				n := 0
+				forEachInstr(cl, func(in ssa.Instruction) {
+					if ci, ok := in.(ssa.CallInstruction); ok {
+						if w, _, isSna := snaHelper(ci.Common().StaticCallee()); isSna && w == x[1][:5] {
+							n++
+						}
+					}
+				})
+				c.Check(n == 1, "sort-cmp:"+x[0], c.P.Pos(cl.Pos()), "comparator uses a "+x[1][:5]+" serial-number comparison", "comparator no longer uses a "+x[1][:5]+" serial-number comparison")
 			}
 			// completeness of a set: begins with B, ends with E, contiguous
 			for _, s := range []struct{ fn, seq string }{{"chunkSet.isComplete", "tsn"}, {"chunkSetMID.isComplete", "fragmentSequenceNumber"}} {
